@@ -2,9 +2,15 @@ package jstok
 
 // Differential replay of spec/js/JsLexImpl.tla (kind I): TLC writes every class string up to the bound with the reports the
 // model of js.Lexer predicts (token type, length of the data, cursor after the call, whether the report came from RegExp(),
-// which error). This mode spells the classes with representative bytes chosen by seed, runs the real lexer (RegExp() where
-// the model's driver calls it) and compares. A difference is MODEL DRIFT, never a verdict: the traces of the differing
-// cases (and of every -traceevery-th case) are written for spec/js/JsTokensTrace.tla, which alone judges them.
+// which error, and `det`: whether the property-level definition PRESCRIBES that token there - TLC checks that flag against
+// JsTokens.tla's own operators, property DetSound). This mode spells the classes with representative bytes chosen by seed,
+// runs the real lexer (RegExp() where the model's driver calls it) and compares. A difference is MODEL DRIFT; it is a
+// CANDIDATE VIOLATION exactly when the first differing report is one the model flags det (and all reports before it agree,
+// the input is valid UTF-8 and spelled with exact representatives): such a trace is written with the model's tokens up to
+// that report as the EXPECTATION (a prefix: what follows it is free), so that spec/js/JsTokensTrace.tla (Matches) judges
+// these reports like those of a generator case; the same record replayed on a lexer that delivers them is accepted. The other
+// differing traces (and every -traceevery-th case) are written free: only the all-input invariants apply. Nothing here is
+// a verdict.
 
 import (
 	"encoding/json"
@@ -14,6 +20,7 @@ import (
 	"os"
 	"sort"
 	"strings"
+	"unicode/utf8"
 
 	"verif/harness/internal/reg"
 	"verif/harness/internal/tr"
@@ -35,12 +42,25 @@ var implBytes = map[string][]string{
 	"uws": {"\u00A0", "\uFEFF", "\u2003", "\u3000"}, "uls": {"\u2028", "\u2029"}, "uother": {"\u2020", "\U0001F600", "\u0080"},
 }
 
+// implInexact lists the representatives ("class/spelling") for which the class abstraction is NOT exact with respect to
+// ECMA-262, i.e. the standard could treat the spelling differently from the other members of its class; an input spelled
+// with one of them is never a candidate violation (drift only). None at present: every representative belongs to its class
+// by the standard's own definition - digits, letters, '$' '_' (IdentifierStartChar), U+00E9 U+2113 U+1D4B3 U+65E5 (ID_Start),
+// U+0301 U+0663 (ID_Continue), U+200C U+200D (IdentifierPartChar), TAB VT FF SP U+00A0 U+FEFF U+2003 U+3000 (WhiteSpace),
+// LF CR U+2028 U+2029 (LineTerminator); NUL, '@', DEL, U+0001, U+2020, U+1F600, U+0080 are SourceCharacters that start no
+// token and are none of the above (the model flags nothing det that starts with them; inside strings, templates, comments
+// and regular expressions they are ordinary characters for the standard and for the model alike). The keyword atoms are the
+// words themselves.
+var implInexact = map[string]bool{}
+
 type implTok struct {
 	Tt  string `json:"tt"`
 	N   int    `json:"n"`
 	Hi  int    `json:"hi"`
 	Re  bool   `json:"re"`
 	Err string `json:"err"`
+	Det bool   `json:"det"` // the property-level definition prescribes this token here (JsLexImpl.tla, Det / DetSound)
+	Pre string `json:"pre"` // for a report of RegExp(): what Next() had returned ("/" or "/=")
 }
 
 type implCase struct {
@@ -53,6 +73,7 @@ type implObs struct {
 	Len   int    `json:"len"`
 	Hi    int    `json:"hi"`
 	Re    bool   `json:"re"`
+	Same  bool   `json:"same"`
 	Eof   bool   `json:"eof,omitempty"`
 	Etext string `json:"err,omitempty"`
 }
@@ -86,6 +107,10 @@ type implSummary struct {
 	Cases      int            `json:"cases"`
 	Executions int            `json:"executions"`
 	Mismatches int            `json:"mismatches"`
+	Candidates int            `json:"candidates"`  // differing cases whose first differing report is prescribed (written with an expectation)
+	DetReports int            `json:"det_reports"` // compared reports that the model flags det
+	DetTypes   map[string]int `json:"det_types"`   // predicted token types flagged det at least once (vacuity of the flag)
+	Inexact    int            `json:"inexact_inputs"`
 	Traces     int            `json:"traces"`
 	Events     int            `json:"events"`
 	Nontrivial int            `json:"distinct_nontrivial"`
@@ -95,6 +120,7 @@ type implSummary struct {
 	Types      map[string]int `json:"types"`
 	Errs       map[string]int `json:"errs"`
 	Drift      []interface{}  `json:"drift_samples"`
+	CandSample []interface{}  `json:"candidate_samples"`
 	Samples    []interface{}  `json:"samples"`
 }
 
@@ -108,7 +134,7 @@ func Impl(args []string) {
 	traceevery := fs.Int("traceevery", 16, "besides the differing cases, keep the trace of every n-th case (0: none)")
 	fs.Parse(args)
 	w := tr.NewWriter(*out)
-	sum := implSummary{Suite: "jstok", Mode: "impl", Classes: map[string]int{}, Types: map[string]int{}, Errs: map[string]int{}}
+	sum := implSummary{Suite: "jstok", Mode: "impl", Classes: map[string]int{}, Types: map[string]int{}, Errs: map[string]int{}, DetTypes: map[string]int{}}
 	seen := map[uint64]bool{} // several configurations write the same class string (and the same prediction): once is enough
 	tid := 1
 	err := tr.ReadCases(*cases, func(line int, raw []byte) {
@@ -132,6 +158,13 @@ func Impl(args []string) {
 			sum.Types[t.Tt]++
 			if t.Tt == "Error" {
 				sum.Errs[t.Err]++
+				if t.Det {
+					fmt.Fprintln(os.Stderr, "jstok impl: an error report flagged det:", string(raw))
+					os.Exit(2)
+				}
+			}
+			if t.Det {
+				sum.DetTypes[t.Tt]++
 			}
 		}
 		rng := caseRng(*seed, h)
@@ -145,6 +178,7 @@ func Impl(args []string) {
 		for v := 0; v < *variants; v++ {
 			// spell the classes; off[i] = byte offset of class i
 			var b []byte
+			exact := true
 			off := make([]int, len(c.Cls)+1)
 			for i, x := range c.Cls {
 				reps, ok := implBytes[x]
@@ -153,8 +187,11 @@ func Impl(args []string) {
 					os.Exit(2)
 				}
 				off[i] = len(b)
-				b = append(b, reps[(r0[i]+v)%len(reps)]...)
+				r := reps[(r0[i]+v)%len(reps)]
+				b = append(b, r...)
+				exact = exact && !implInexact[x+"/"+r]
 			}
+			exact = exact && utf8.Valid(b)
 			off[len(c.Cls)] = len(b)
 			if prevInputs[string(b)] {
 				continue
@@ -165,7 +202,7 @@ func Impl(args []string) {
 			end := 0
 			for _, t := range c.Toks {
 				if t.Re {
-					e.Ek, e.Elo, e.Ehi, e.Epre = append(e.Ek, "RegExp"), append(e.Elo, off[end]), append(e.Ehi, off[end]), append(e.Epre, "/")
+					e.Ek, e.Elo, e.Ehi, e.Epre = append(e.Ek, "RegExp"), append(e.Elo, off[end]), append(e.Ehi, off[end]), append(e.Epre, t.Pre)
 					sum.RegExps++
 				}
 				if t.Tt != "Error" {
@@ -187,7 +224,7 @@ func Impl(args []string) {
 					obs = append(obs, implObs{Kind: "panic"})
 					continue
 				}
-				o := implObs{Kind: ev["kname"].(string), Hi: ev["hi"].(int), Len: ev["hi"].(int) - ev["lo"].(int), Re: ev["pre"].(string) != "", Eof: ev["eof"].(bool)}
+				o := implObs{Kind: ev["kname"].(string), Hi: ev["hi"].(int), Len: ev["hi"].(int) - ev["lo"].(int), Re: ev["pre"].(string) != "", Same: ev["same"].(bool), Eof: ev["eof"].(bool)}
 				if s, ok := ev["etext"].(string); ok {
 					o.Etext = s
 				}
@@ -201,17 +238,42 @@ func Impl(args []string) {
 				}
 				m, o := c.Toks[k], obs[k]
 				sum.Reports++
-				if m.Tt != o.Kind || off[m.Hi]-off[m.Hi-m.N] != o.Len || off[m.Hi] != o.Hi || m.Re != o.Re || !errAgrees(m.Err, o) {
+				// (the model's data is the piece of the input that the call consumed: Same)
+				if m.Tt != o.Kind || off[m.Hi]-off[m.Hi-m.N] != o.Len || off[m.Hi] != o.Hi || m.Re != o.Re || !o.Same || !errAgrees(m.Err, o) {
 					diff = k
 					break
 				}
+				if m.Det {
+					sum.DetReports++
+				}
+			}
+			if !exact {
+				sum.Inexact++
 			}
 			keep := *traceevery > 0 && h%uint64(*traceevery) == 0
 			if diff >= 0 {
 				sum.Mismatches++
 				keep = true
+				// the reports before `diff` agree (it is the first difference); is the model's token there prescribed?
+				cand := exact && diff < len(c.Toks) && c.Toks[diff].Det
 				if len(sum.Drift) < 12 {
-					sum.Drift = append(sum.Drift, map[string]interface{}{"cls": c.Cls, "input": string(b), "report": diff + 1, "model": c.Toks, "observed": obs})
+					sum.Drift = append(sum.Drift, map[string]interface{}{"cls": c.Cls, "input": string(b), "report": diff + 1, "model": c.Toks, "observed": obs, "candidate": cand})
+				}
+				if cand {
+					// the same input once more, now with the model's tokens up to the differing one as the expectation: the
+					// trace spec compares kind, extent, text and the token before RegExp() (JsTokens!Matches) and rejects
+					// the trace at the first report that is not the expected one
+					sum.Candidates++
+					e2 := &expect{Free: false, Pfx: true, Input: tr.Ints(b), Plan: "impl"}
+					for _, t := range c.Toks[:diff+1] {
+						e2.Units = append(e2.Units, strings.Join(c.Cls[t.Hi-t.N:t.Hi], "+"))
+						e2.Ek, e2.Elo, e2.Ehi, e2.Epre = append(e2.Ek, t.Tt), append(e2.Elo, off[t.Hi-t.N]), append(e2.Ehi, off[t.Hi]), append(e2.Epre, t.Pre)
+					}
+					w.Begin(tid)
+					run(w, b, e2)
+					if len(sum.CandSample) < 6 {
+						sum.CandSample = append(sum.CandSample, map[string]interface{}{"cls": c.Cls, "input": string(b), "report": diff + 1, "prescribed": c.Toks[diff], "observed": obs})
+					}
 				}
 			}
 			if len(sum.Samples) < 3 && len(c.Toks) >= 4 && h%7 == 0 {
